@@ -45,8 +45,7 @@ Qed.
 
 Lemma safe_programs : forall k, safe false false (prog_of k) = true.
 Proof.
-  destruct k as [|n|n|n|n|n|past| |evs| | |b]; try reflexivity.
-  - destruct past; reflexivity.
+  destruct k as [|n|n|n|n|n|m|j|evs| | |b]; try reflexivity.
   - cbn [prog_of]. induction evs as [|e evs IH]; [reflexivity|exact IH].
 Qed.
 
@@ -216,7 +215,7 @@ Lemma safe_sunlock h c k : safe h c (OSUnlock :: k) = true -> h = false /\ safe 
 Proof. safe_inv. Qed.
 Lemma safe_stall h c b k : safe h c (OStall b :: k) = true -> h = false /\ safe h c k = true.
 Proof. safe_inv. Qed.
-Lemma safe_fire h c k : safe h c (OFire :: k) = true -> h = false /\ safe h c k = true.
+Lemma safe_fire h c j k : safe h c (OFire j :: k) = true -> h = false /\ safe h c k = true.
 Proof. safe_inv. Qed.
 Lemma safe_acqin h c k : safe h c (OAcqIn :: k) = true -> h = false /\ safe h c k = true.
 Proof. safe_inv. Qed.
@@ -329,7 +328,7 @@ Proof.
     apply INV_local; [exact HI|exact Hk|cbn; auto].
   - (* OSetDeadline *) injection Hstep as <-. apply INV_local; [exact HI|exact Hsafe|auto].
   - (* OFire *)
-    destruct (i_armed (s_i s)); [|discriminate]. injection Hstep as <-.
+    injection Hstep as <-.
     apply safe_fire in Hsafe. apply INV_local; [exact HI|exact (proj2 Hsafe)|auto].
   - (* OPeer *) injection Hstep as <-. apply INV_local; [exact HI|exact Hsafe|auto].
   - (* OAcqIn *)
